@@ -11,6 +11,33 @@ From CBP Require Import MonadLemmas Arith AbsLemmas ListLemmas AbsOps Core Step.
 Definition bound_ok (b : bound) : Prop :=
   match b with BIncl x | BExcl x => in_usize x | BUnb => True end.
 
+(* Scripts on views: a script step that writes through a mutable iterator
+   cannot follow a clone of the iterator. No Rust program can do that (Iter
+   has no writes, IterMut is not Clone); the model, which exhausts a clone when
+   the script is over, and the specification, which lists the window as it was
+   when the clone was taken, only agree on such scripts (proofs/Iters.v,
+   [iter_clone_then_write_differs] shows a script on which they differ). *)
+Fixpoint no_writes (script : list sstep) : bool :=
+  match script with
+  | [] => true
+  | (SNextSet _ | SNextBackSet _) :: _ => false
+  | _ :: rest => no_writes rest
+  end.
+
+Fixpoint no_clone (script : list sstep) : bool :=
+  match script with
+  | [] => true
+  | SClone :: _ => false
+  | _ :: rest => no_clone rest
+  end.
+
+Fixpoint clone_safe (script : list sstep) : bool :=
+  match script with
+  | [] => true
+  | SClone :: rest => no_writes rest && clone_safe rest
+  | _ :: rest => clone_safe rest
+  end.
+
 (* arguments are machine values: indices are usize, slices and iterators have
    fewer than 2^64 elements, other buffers are well formed *)
 Definition op_ok (s : cbuf) (o : op) : Prop :=
@@ -22,7 +49,10 @@ Definition op_ok (s : cbuf) (o : op) : Prop :=
   | OSwap i j => in_usize i /\ in_usize j
   | OExtend xs | OExtendRef xs | OExtendFromSlice xs | OFromArray xs | OFromIter xs
   | OEqSlice _ xs | OWrite _ xs | ORead _ xs => zlen xs < W
-  | ODrain sb eb _ _ | ORange sb eb _ | ORangeMut sb eb _ => bound_ok sb /\ bound_ok eb
+  | ODrain sb eb _ _ => bound_ok sb /\ bound_ok eb
+  | ORange sb eb script | ORangeMut sb eb script =>
+    (bound_ok sb /\ bound_ok eb) /\ clone_safe script = true
+  | OIter script | OIterMut script => clone_safe script = true
   | OCloneFrom other | OCmp other => WF other /\ cap other = cap s
   | OEq other | OPartialCmp other => WF other
   | OConsume _ k => in_usize k
